@@ -27,6 +27,7 @@ func (m *Mutex) Lock() {
 		return
 	}
 	sched.Block("Mutex.Lock", func() bool { return !m.held })
+	sched.Touch(m)
 	m.held = true
 	if t := sched.Current(); t != nil {
 		m.owner = t.Name
@@ -39,6 +40,7 @@ func (m *Mutex) TryLock() bool {
 		return m.mu.TryLock()
 	}
 	sched.Point("Mutex.TryLock")
+	sched.Touch(m)
 	if m.held {
 		return false
 	}
@@ -51,6 +53,7 @@ func (m *Mutex) Unlock() {
 	if m.held {
 		// locked under the scheduler (possibly being torn down now)
 		raceRelease(m)
+		sched.Touch(m)
 		m.held = false
 		m.owner = ""
 		if sched.Active() {
@@ -81,8 +84,10 @@ func (m *RWMutex) Lock() {
 		m.mu.Lock()
 		return
 	}
+	sched.Touch(m)
 	m.pending++
 	sched.Block("RWMutex.Lock", func() bool { return !m.writer && m.readers == 0 })
+	sched.Touch(m)
 	m.pending--
 	m.writer = true
 	raceAcquire(m)
@@ -91,6 +96,7 @@ func (m *RWMutex) Lock() {
 func (m *RWMutex) Unlock() {
 	if m.writer {
 		raceRelease(m)
+		sched.Touch(m)
 		m.writer = false
 		if sched.Active() {
 			sched.Point("RWMutex.Unlock")
@@ -106,6 +112,7 @@ func (m *RWMutex) RLock() {
 		return
 	}
 	sched.Block("RWMutex.RLock", func() bool { return !m.writer && m.pending == 0 })
+	sched.Touch(m)
 	m.readers++
 	raceAcquire(m)
 }
@@ -113,6 +120,7 @@ func (m *RWMutex) RLock() {
 func (m *RWMutex) RUnlock() {
 	if m.readers > 0 {
 		raceRelease(m)
+		sched.Touch(m)
 		m.readers--
 		if sched.Active() {
 			sched.Point("RWMutex.RUnlock")
@@ -143,6 +151,7 @@ func (o *Once) Do(f func()) {
 		return
 	}
 	sched.Point("Once.Do")
+	sched.Touch(o)
 	if o.done {
 		raceAcquire(o)
 		return
@@ -152,6 +161,7 @@ func (o *Once) Do(f func()) {
 	if !o.done {
 		f()
 		raceRelease(o)
+		sched.Touch(o)
 		o.done = true
 	}
 }
@@ -167,6 +177,7 @@ func (w *WaitGroup) Add(d int) {
 		w.wg.Add(d)
 		return
 	}
+	sched.Touch(w)
 	w.n += d
 }
 func (w *WaitGroup) Done() {
@@ -175,6 +186,7 @@ func (w *WaitGroup) Done() {
 		return
 	}
 	raceRelease(w)
+	sched.Touch(w)
 	w.n--
 	if sched.Active() {
 		sched.Point("WaitGroup.Done")
@@ -186,6 +198,7 @@ func (w *WaitGroup) Wait() {
 		return
 	}
 	sched.Block("WaitGroup.Wait", func() bool { return w.n <= 0 })
+	sched.Touch(w)
 	raceAcquire(w)
 }
 
@@ -212,11 +225,15 @@ var closedChans = map[any]bool{}
 
 // Close closes a channel and remembers it (so that receives on it are enabled).
 func Close[T any](ch chan T) {
+	sched.Touch(any(ch))
 	closedChans[ch] = true
 	close(ch)
 }
 
 func IsClosed(ch any) bool { return closedChans[ch] }
+
+// TouchChan records an access to a channel by shim code that sends on it directly.
+func TouchChan(ch any) { sched.Touch(bidir(ch)) }
 
 // Forget drops bookkeeping of a channel (end of an execution).
 func ResetChannels() { closedChans = map[any]bool{} }
@@ -236,6 +253,7 @@ func Recv2[T any](ch <-chan T) (T, bool) {
 	}
 	key := bidir(ch)
 	sched.Block("chan.recv", func() bool { return chanReady(key) })
+	sched.Touch(key)
 	select {
 	case v, ok := <-ch:
 		return v, ok
@@ -281,6 +299,8 @@ func Select2[A, B any](a <-chan A, b <-chan B) (idx int, va A, oka bool, vb B, o
 	}
 	ka, kb := bidir(a), bidir(b)
 	sched.Block("select.recv", func() bool { return chanReady(ka) || chanReady(kb) })
+	sched.Touch(ka)
+	sched.Touch(kb)
 	// deterministic preference: first ready case in source order
 	if chanReady(ka) {
 		select {
@@ -301,6 +321,8 @@ func Select2[A, B any](a <-chan A, b <-chan B) (idx int, va A, oka bool, vb B, o
 func Select2Default[A, B any](a <-chan A, b <-chan B) (idx int, va A, oka bool, vb B, okb bool) {
 	if sched.Active() {
 		sched.Point("select.poll")
+		sched.Touch(bidir(a))
+		sched.Touch(bidir(b))
 	}
 	select {
 	case va, oka = <-a:
